@@ -221,9 +221,21 @@ def n1(ck: Check) -> None:
             elif isinstance(n, (ast.ListComp, ast.GeneratorExp, ast.DictComp, ast.SetComp)):
                 exp = (n.generators[0].iter, "comp", n)
             elif isinstance(n, ast.Call) and callee_name(n) in ("list", "tuple", "combinations", "permutations", "enumerate",
-                                                               "iter", "join", "product") and n.args:
+                                                               "iter", "join", "product", "zip", "map", "islice", "chain") and n.args:
                 if not isinstance(fm.f.parents.get(n), (ast.For, ast.comprehension)):
-                    exp = (n.args[0], "call:" + callee_name(n), n)
+                    arg0 = n.args[0]
+                    if callee_name(n) in ("zip", "chain"):
+                        # pairing / concatenation: any set-typed argument exposes its order
+                        for a_ in n.args:
+                            try:
+                                if set_kind(fm, a_, fm.cfgn(n)) is not None:
+                                    arg0 = a_
+                                    break
+                            except AnalysisError:
+                                pass
+                    elif callee_name(n) == "map" and len(n.args) > 1:
+                        arg0 = n.args[1]
+                    exp = (arg0, "call:" + callee_name(n), n)
             elif isinstance(n, ast.Call) and isinstance(n.func, ast.Attribute) and n.func.attr == "pop" and not n.args:
                 exp = (n.func.value, "pop", n)
             if exp is None:
@@ -300,9 +312,25 @@ def n1(ck: Check) -> None:
     ifm = prog.model(iv)
     srt = [n for n in own_walk(iv.node) if isinstance(n, ast.Call) and callee_name(n) == "sorted"]
     nested = [n for n in srt if any(isinstance(c, ast.Call) and callee_name(c) == "sorted" and c is not n for c in ast.walk(n))]
-    okc = len(srt) >= 2 and bool(nested)
+    def total(c_: ast.Call) -> bool:
+        """sorted() by the elements themselves: a key that does not separate all elements leaves ties in arrival order"""
+        k = next((kw.value for kw in c_.keywords if kw.arg == "key"), None)
+        if k is None:
+            return True
+        if isinstance(k, ast.Lambda) and len(k.args.args) == 1:
+            pn = k.args.args[0].arg
+            b_ = k.body
+            if isinstance(b_, ast.Name) and b_.id == pn:
+                return True
+            if isinstance(b_, ast.Tuple) and b_.elts and any(isinstance(x, ast.Name) and x.id == pn for x in b_.elts):
+                return True
+        return False
+
+    inner_ok = any(total(c) for n in nested for c in ast.walk(n) if isinstance(c, ast.Call) and callee_name(c) == "sorted" and c is not n)
+    okc = len(srt) >= 2 and bool(nested) and all(total(n) for n in nested) and inner_ok
     ck.ob("N1", ifm, iv.node, okc, "Intervention canonicalises its control: sorted list of sorted item lists" if okc else
-          "Intervention.__init__ no longer sorts both the driver sets and the items of each set: the hash order of "
+          "Intervention.__init__ no longer sorts both the driver sets and the items of each set by the elements themselves "
+          "(a sort key that does not tell all elements apart keeps ties in arrival order): the hash order of "
           "the driver pool becomes visible in `control`, in == and in printed interventions", key="Intervention canonical form")
 
 
